@@ -107,11 +107,36 @@ func TestTrace(t *testing.T) {
 		if only != "" && only != fmt.Sprintf("%d/%d", e.Pi, e.Mi) {
 			continue
 		}
-		for k := 0; k < n; k++ {
+		// systematic values after the n random ones: all fields set together; every data field set alone; every wire
+		// field with empty / nil buffers only, first, in the middle, last (the other fields set, so that fields follow)
+		type sysv struct {
+			full      bool
+			alone, ws int
+		}
+		sys := []sysv{{true, -1, 0}}
+		for i := range e.M.Fields {
+			if isData(e.M.Fields[i].Kind) {
+				sys = append(sys, sysv{true, i, 0})
+			}
+		}
+		if e.HasWire(0) {
+			for k := 1; k <= nWireShapes; k++ {
+				sys = append(sys, sysv{true, -1, k})
+			}
+		}
+		for k := 0; k < n+len(sys); k++ {
 			var p reflect.Value
-			big := g.Big && k%16 == 7 // a few values per model may carry 64 KiB-scale fields
+			big := g.Big && k%16 == 7 && k < n // a few values per model may carry 64 KiB-scale fields
 			if k == 0 {
 				p = reflect.New(e.T) // zero value: everything nil/0/false
+			} else if k >= n {
+				sv := sys[k-n]
+				save := g.Big
+				g.Big = false
+				g.Full, g.Alone, g.WireShape = sv.full, sv.alone+1, sv.ws
+				p = e.GenStruct(g)
+				g.Full, g.Alone, g.WireShape = false, 0, 0
+				g.Big = save
 			} else {
 				save := g.Big
 				g.Big = big
@@ -122,7 +147,7 @@ func TestTrace(t *testing.T) {
 			vsegs := e.DumpSegs(p)
 			er := e.Encode(p)
 			if er.Panic != "" {
-				fmt.Fprintf(w, "X %d %d encode-panic %s %s\n", e.Pi, e.Mi, vstr, strconv.Quote(er.Panic))
+				fmt.Fprintf(w, "X %d %d encode-panic %s %s\n", e.Pi, e.Mi, vsegs, strconv.Quote(er.Panic)) // value with its wire segmentation
 				continue
 			}
 			b := er.Wire.Join()
@@ -135,6 +160,9 @@ func TestTrace(t *testing.T) {
 			e.emitD(w, g, b, false, "rt:"+vstr, "rt")
 			if k%4 == 1 {
 				e.emitD(w, g, b, true, "rt:"+vstr, "rt-ic")
+			}
+			if k >= n && !allpos {
+				continue // systematic values: round trip only in the quick tier
 			}
 			// unknown element insertion
 			els := e.Elements(b)
